@@ -419,6 +419,22 @@ func TestVerifC13Addresser(t *testing.T) {
 				}
 				_ = ip("-6", "route", "del", "unreachable", "default", "metric", "4096")
 			}
+			// the IPv4-mapped range rejected on lo (RHEL-style network scripts install `unreachable ::ffff:0.0.0.0/96`):
+			// not a route anybody can advertise, and no reason to stop advertising the others
+			if ip("-6", "route", "add", "unreachable", "::ffff:0.0.0.0/96", "dev", "lo") == nil {
+				var rs []Route
+				var derr error
+				var pan any
+				func() {
+					defer func() { pan = recover() }()
+					rs, derr = NewAddresser().LoopbackRoutes()
+				}()
+				if pan != nil || derr != nil || !has(rs) {
+					res <- fmt.Sprintf("with `unreachable ::ffff:0.0.0.0/96 dev lo` LoopbackRoutes gives %v (error %v, panic %v), want the other routes of lo", rs, derr, pan)
+					return
+				}
+				_ = ip("-6", "route", "del", "unreachable", "::ffff:0.0.0.0/96", "dev", "lo")
+			}
 			later, err1 := a.LoopbackRoutes()
 			fresh, err2 := NewAddresser().LoopbackRoutes()
 			switch {
